@@ -62,11 +62,44 @@ def tol_flag(r):
 
 
 # witness grids: exact rationals; each witness is a realisable input of the premises
-def axis_witnesses(tol):
+def literal_constants(fn):
+    """Positive numeric literals of a function (candidate hidden tolerances / offsets)."""
+    import ast
+    out = set()
+    for node in ast.walk(fn.node):
+        if isinstance(node, ast.Constant) and isinstance(node.value, (int, float)) and \
+                not isinstance(node.value, bool) and node.value not in (0, 1, 2) and \
+                node.value == node.value and abs(node.value) != float('inf'):
+            out.add(abs(Fraction(repr(node.value)) if isinstance(node.value, float)
+                        else Fraction(node.value)))
+    return sorted(out)
+
+
+def literal_constants_closure(prog, fn):
+    """Literals of fn and of the package functions it calls."""
+    from .. import purity
+    out = set()
+    for f in purity.closure(prog, [fn.qualname]):
+        out.update(literal_constants(f))
+    return sorted(out)[:6]
+
+
+def axis_witnesses(tol, consts=()):
     for u in (0, 4):
         for t in ((0, 1) if tol else (0,)):
             for k in range(-5, 14):
                 yield {'l': Fraction(0), 'u': Fraction(u), 't': Fraction(t), 'v': Fraction(k, 2)}
+            # values just beyond each bound, at the scale of every literal of the function: a
+            # hidden tolerance shows between the bound and bound +- that literal
+            for c in consts:
+                for b in (Fraction(0), Fraction(u)):
+                    for m in (Fraction(1, 2), Fraction(1), Fraction(2)):
+                        for sgn in (-1, 1):
+                            yield {'l': Fraction(0), 'u': Fraction(u), 't': Fraction(t),
+                                   'v': b + sgn * m * c}
+                            if tol:
+                                yield {'l': Fraction(0), 'u': Fraction(u), 't': Fraction(t),
+                                       'v': b + sgn * (Fraction(t) + m * c)}
 
 
 class LimitFn:
@@ -135,7 +168,7 @@ class LimitFn:
             # the function compares against a term outside {value, lower, upper[, lower-tol,
             # upper+tol]}: look for a concrete realisable counterexample on the witness grid
             before = len(self.ck.violations)
-            for w in axis_witnesses(self.tol):
+            for w in axis_witnesses(self.tol, literal_constants_closure(self.prog, self.fn)):
                 assign = {'value': w['v'], 'lower': w['l'], 'upper': w['u'], 'tol': w['t']}
                 case = WitnessCase(assign)
                 ranks = ranks_of(terms, assign)
@@ -224,7 +257,7 @@ def run(ck, prog, tier):
                 judge_pib(rx, ry, case, 'x: %s | y: %s' % (describe(rx), describe(ry)))
     except Undecided as und:
         before = len(ck.violations)
-        ws = list(axis_witnesses(True))
+        ws = list(axis_witnesses(True, literal_constants_closure(prog, f_pib)))
         for wx in ws:
             for wy in ws:
                 if wx['t'] != wy['t']:
